@@ -169,6 +169,23 @@ pub fn catalogue(w: &World, tier: &str, seed: u64, reps: usize) -> Vec<FaultCase
                             let bit = 1u8 << rng.random_range(0..8);
                             let ms: Vec<TreeMut> = cols.iter().take(80).map(|j| tm(vec![*j, byte], MutOp::XorU8(bit))).collect();
                             entries.push((What::TreeMulti(ms), "alsz-80-columns-one-row".into()));
+                            // the same error in two rows (OT indices) at several distances: goes unnoticed
+                            // only if the two check coefficients coincide
+                            for (dname, dbyte, dbit) in [("1", 0usize, 1u32), ("8", 1, 0), ("64", 8, 0), ("128", 16, 0)] {
+                                let b0 = byte % (inner - dbyte.min(inner - 1)).max(1);
+                                let b1 = (b0 + dbyte).min(inner - 1);
+                                let bit0 = if dbit > 0 { 1u8 } else { bit };
+                                let bit1 = if dbit > 0 { 2u8 } else { bit };
+                                if b0 == b1 && bit0 == bit1 {
+                                    continue;
+                                }
+                                let mut ms2: Vec<TreeMut> = vec![];
+                                for j in cols.iter().take(80) {
+                                    ms2.push(tm(vec![*j, b0], MutOp::XorU8(bit0)));
+                                    ms2.push(tm(vec![*j, b1], MutOp::XorU8(bit1)));
+                                }
+                                entries.push((What::TreeMulti(ms2), format!("alsz-80-columns-two-rows-distance-{dname}")));
+                            }
                         }
                     }
                     "CO_OT_s" => {
@@ -240,6 +257,40 @@ pub fn catalogue(w: &World, tier: &str, seed: u64, reps: usize) -> Vec<FaultCase
                 for ix in ixs {
                     let iname = if ix == usize::MAX { "all".to_string() } else { ix.to_string() };
                     add(&format!("tap:{site}"), None, None, What::Drop, format!("tap:{site}:{iname}"), s, Some((site.to_string(), ix)));
+                }
+            }
+            // aBit consistency: the corrupted party uses choice bits towards ONE peer that differ from
+            // the bits it claims, at one position and at structured pairs / sets of positions (equal
+            // distance patterns would go unnoticed if the test combinations were not independent per
+            // position); missed with probability 2^-120 by an honest check
+            let lprime_min = 8 + 40 + 120; // smallest aBit batch of the fault configurations
+            let sets: Vec<(&str, Vec<usize>)> = vec![
+                ("one-position", vec![1]),
+                ("pair-distance-1", vec![2, 3]),
+                ("pair-distance-2", vec![4, 6]),
+                ("pair-distance-8", vec![3, 11]),
+                ("pair-distance-32", vec![7, 39]),
+                ("pair-distance-64", vec![1, 65]),
+                ("pair-distance-64-b", vec![63, 127]),
+                ("pair-distance-127", vec![0, 127]),
+                ("pair-across-chunks", vec![5, 133]),
+                ("pair-in-remainder", vec![130, 150]),
+                ("four-positions", vec![0, 64, 32, 96]),
+            ];
+            for victim in &honest {
+                for (name, pos) in &sets {
+                    if pos.iter().any(|p| *p >= lprime_min) {
+                        continue;
+                    }
+                    for r in 0..reps {
+                        let plan = FaultPlan { corrupt: c, actions: vec![], crash: None, seed: s ^ ((r as u64) << 56) ^ pos[0] as u64 };
+                        let mut fc = FaultCase::new(ci, plan, format!("tap:abit-choice-bits-differ-towards-one-peer:{name}"), "tap:fabitn.x.peer".into());
+                        fc.tap = Some(("fabitn.x.peer".into(), *victim));
+                        fc.tap_positions = pos.clone();
+                        fc.expect_abort = vec![*victim];
+                        fc.rep = r;
+                        extra.push(fc);
+                    }
                 }
             }
             cases.extend(extra);
@@ -446,6 +497,91 @@ pub fn predictor(net: &Net, probes: &[crate::hooks::ProbeRec]) -> PredictorOut {
     out
 }
 
+// ------------------------------------------------------------------------------------------------
+// (d) soundness probes of the aBit test through the preprocessing wrappers
+// ------------------------------------------------------------------------------------------------
+
+pub struct ProbeOut {
+    pub key: String,
+    pub end: RunEnd,
+    pub sig: Option<String>,
+    pub sample: Value,
+    pub tap_fired: usize,
+}
+
+/// The corrupted party uses, towards one peer, choice bits that differ from the bits it claims at a
+/// structured set of live positions; `fashare` of that peer must fail (missed w.p. 2^-120).
+pub fn abit_probe(i: usize, seed: u64) -> ProbeOut {
+    use crate::hooks::pv::Pre;
+    use crate::sim::{self, PartyFut, SimCfg, SimChan};
+    let patterns: Vec<(&str, Vec<usize>)> = vec![
+        ("one-position", vec![3]),
+        ("pair-distance-1", vec![10, 11]),
+        ("pair-distance-2", vec![20, 22]),
+        ("pair-distance-4", vec![40, 44]),
+        ("pair-distance-8", vec![3, 11]),
+        ("pair-distance-16", vec![5, 21]),
+        ("pair-distance-32", vec![7, 39]),
+        ("pair-distance-64", vec![1, 65]),
+        ("pair-distance-64-second-chunk", vec![130, 194]),
+        ("pair-distance-128", vec![2, 130]),
+        ("pair-same-offset-in-both-chunks", vec![77, 205]),
+        ("four-positions", vec![0, 64, 32, 96]),
+        ("pair-first-last-live", vec![0, 255]),
+    ];
+    let (name, pos) = &patterns[i % patterns.len()];
+    let n = 2 + (i / patterns.len()) % 2;
+    let c = (i / (2 * patterns.len())) % n;
+    let victim = (c + 1 + (i / (2 * patterns.len() * 3)) % (n - 1)) % n;
+    let l = 256usize; // live shares 0..256; aShare check shares 256..296; discarded 296..416
+    let mut rng = ChaCha8Rng::seed_from_u64(seed ^ 0xab17 ^ i as u64);
+    let deltas: Vec<u128> = (0..n).map(|_| rng.random()).collect();
+    let fired = std::rc::Rc::new(std::cell::Cell::new(0usize));
+    {
+        let f = fired.clone();
+        let pos = pos.clone();
+        crate::hooks::install_tap(Some(Box::new(move |site, party, idx, value| {
+            if site == "fabitn.x.peer" && party == Some(c) && idx == victim {
+                for p in &pos {
+                    if let Some(b) = value.get_mut(*p) {
+                        *b ^= 1;
+                    }
+                }
+                f.set(f.get() + 1);
+            }
+        })));
+    }
+    let (net, chans) = SimChan::new_set(n, None);
+    let res = {
+        let mut futs: Vec<PartyFut<'_, Result<usize, String>>> = vec![];
+        for p in 0..n {
+            let ch = &chans[p];
+            let delta = deltas[p];
+            futs.push(Box::pin(async move {
+                let mut pre = Pre::setup(ch, p, n, delta).await?;
+                let s = pre.fashare(ch, l).await?;
+                Ok(s.len())
+            }));
+        }
+        sim::run(&net, futs, &SimCfg::default())
+    };
+    crate::hooks::install_tap(None);
+    let mut sig = None;
+    let vo = match &res.outcomes[victim] {
+        Outcome::Done(Ok(_)) => "Ok".to_string(),
+        Outcome::Done(Err(e)) => format!("Err:{}", crate::props::err_class(e)),
+        Outcome::Panic(_, l) => format!("Panic@{l}"),
+        _ => "Unfinished".into(),
+    };
+    if vo == "Ok" {
+        sig = Some(format!("aBit test accepted choice bits that differ from the claimed bits ({name})"));
+    } else if !vo.starts_with("Err") && res.end != RunEnd::StepLimit {
+        sig = Some(format!("aBit probe: victim did not return Err ({}) ({name})", vo.split('@').next().unwrap_or(&vo)));
+    }
+    let sample = json!({"probe": "aBit choice bits towards one peer differ from the claimed bits", "pattern": name, "positions": pos, "n": n, "corrupt": c, "victim": victim, "live_shares": l, "victim_result": vo, "tap_fired": fired.get()});
+    ProbeOut { key: format!("abit-probe|n={n}|c={c}|v={victim}|{name}"), end: res.end, sig, sample, tap_fired: fired.get() }
+}
+
 pub struct HonestOut {
     pub ok: bool,
     pub end: RunEnd,
@@ -495,7 +631,7 @@ pub fn honest_run(i: usize, seed: u64) -> HonestOut {
 
 pub fn run(tier: &str, seed: u64) -> i32 {
     let mut rep = Report::new("C04", tier, seed, "fault_enumeration");
-    rep.rule = "(a) cheating catalogue: for every verification step of coin tossing, aBit, aShare, HaAND/LaAND, bucket combination, Beaver derandomisation, KOS/ALSZ/base OT and every verified broadcast, the corrupted party sends a value that does not match (on the wire: single recipient, all recipients, persistent) or lies consistently through a tap; index inside the checked vectors first/mid/last (quick) or all (thorough). Oracle: every honest receiver returns Err and sends no online-phase message after receiving the bad value. (b) commit-before-reveal checked on the event log of honest runs under starving / random / PCT schedulers and capacities 1, 2, unbounded. (c) predictor: challenge recomputed from the coin-toss openings on the wire, alarm on exact match with the probe of the challenge used. distinct = (configuration, corrupted party, label, cheating class, variant) for (a), (n, scheduler, capacity) for (b); non-trivial = the bad value was delivered / at least one commit-reveal round was observed".into();
+    rep.rule = "(a) cheating catalogue: for every verification step of coin tossing, aBit, aShare, HaAND/LaAND, bucket combination, Beaver derandomisation, KOS/ALSZ/base OT and every verified broadcast, the corrupted party sends a value that does not match (on the wire: single recipient, all recipients, persistent) or lies consistently through a tap; index inside the checked vectors first/mid/last (quick) or all (thorough). Oracle: every honest receiver returns Err and sends no online-phase message after receiving the bad value. (b) commit-before-reveal checked on the event log of honest runs under starving / random / PCT schedulers and capacities 1, 2, unbounded. (d) soundness probes through the preprocessing wrappers: the corrupted party's aBit choice bits towards one peer differ from the bits it claims at one position and at pairs / sets of positions at distances 1..128 (would be accepted if test coefficients repeated with that period); that peer's fashare must fail. (c) predictor: challenge recomputed from the coin-toss openings on the wire, alarm on exact match with the probe of the challenge used. distinct = (configuration, corrupted party, label, cheating class, variant) for (a), (n, scheduler, capacity) for (b); non-trivial = the bad value was delivered / at least one commit-reveal round was observed".into();
     rep.assumptions = vec![
         "expectations with inherent failure probability above 2^-64 (single ALSZ column, single correlated-OT correction, leaky-AND u value, the never-opened commitment cm for all recipients) are not in the must-abort catalogue; they are judged by C02".into(),
         "commit / reveal messages are paired by the engine's own phase labels and occurrence index".into(),
@@ -550,6 +686,29 @@ pub fn run(tier: &str, seed: u64) -> i32 {
     if rounds == 0 {
         rep.harness_error("no commit/reveal round observed");
     }
+    // (d) soundness probes of the aBit test
+    let n_probe = if tier == "thorough" { 13 * 2 * 3 * 2 * 2 } else { 13 * 2 * 3 };
+    let probes = parallel_for(n_probe, threads(), |i| abit_probe(i, seed));
+    let mut probe_hits = 0u64;
+    for o in probes {
+        rep.evaluations += 1;
+        match &o.end {
+            RunEnd::HarnessError(e) => { rep.harness_error(e.clone()); continue; }
+            RunEnd::StepLimit => { rep.inconclusive("step limit"); continue; }
+            _ => {}
+        }
+        if crate::hooks::HOOKS_ON && o.tap_fired == 0 {
+            rep.harness_error(format!("aBit probe tap never fired: {}", o.key));
+            continue;
+        }
+        probe_hits += 1;
+        rep.distinct.insert(o.key.clone());
+        match o.sig {
+            Some(s) => rep.violation(s, o.sample),
+            None => { if probe_hits % 29 == 1 { rep.sample(o.sample) } }
+        }
+    }
+    rep.set("abit_soundness_probes", json!(probe_hits));
     // (a) catalogue
     let w = build(tier, seed);
     let mut hist = std::collections::BTreeMap::new();
@@ -577,6 +736,16 @@ pub fn run(tier: &str, seed: u64) -> i32 {
             } else if !oc.starts_with("Err") {
                 rep.violation(format!("honest party did not return Err ({}) via {via}", oc.split('@').next().unwrap_or(oc)), v.clone());
                 bad = true;
+            }
+        }
+        // consistent lies (taps) do not show up as an altered message: the honest receiver of the lie
+        // must stop during preprocessing, i.e. never send an online-phase message at all
+        if fc.tap.is_some() {
+            for h in &fc.expect_abort {
+                if v["sent_online"][*h].as_bool().unwrap_or(false) {
+                    rep.violation(format!("honest party proceeded to the online phase on unverified preprocessing data via {via}"), v.clone());
+                    bad = true;
+                }
             }
         }
         if let Some(vs) = v["victims"].as_array() {
